@@ -563,6 +563,7 @@ func genHistory(r *rand.Rand, search bool) History {
 		return []string{"v1.11.3", "v1.12.0", "v2.0.0", "v1.11.4"}[r.Intn(4)]
 	}
 	height := h.H0
+	var kaHeights []int64
 	// some validators are diligent (keep sending), the others silent
 	diligent := map[int]bool{}
 	for i := 0; i < n+extra; i++ {
@@ -605,12 +606,30 @@ func genHistory(r *rand.Rand, search bool) History {
 				}
 			}
 		}
+		// remember the heights of keep-alives sent in this block (TTL boundary targeting)
+		for k := len(h.Ops) - 1; k >= 0 && h.Ops[k].K != "begin"; k-- {
+			if h.Ops[k].K == "keepalive" {
+				kaHeights = append(kaHeights, height)
+				break
+			}
+		}
 		dh := int64(1)
 		switch x := r.Intn(100); {
 		case x < 6:
 			dh = []int64{2, 7, 9, 10, 11, 29, 30, 31, 32}[r.Intn(9)]
 		case x < 9:
 			dh = []int64{1989, 1990, 1999, 2000, 2001}[r.Intn(5)]
+		case x < 14 && len(kaHeights) > 0:
+			// land exactly on (or next to) the expiry height of an earlier keep-alive
+			t := kaHeights[r.Intn(len(kaHeights))] + 2000 + int64(r.Intn(3)) - 1
+			if t > height {
+				dh = t - height
+			}
+		case x < 20:
+			// land on the next liveness-check height
+			if d := 10 - height%10; d > 0 {
+				dh = d
+			}
 		}
 		dt := int64(2)
 		switch x := r.Intn(100); {
